@@ -53,6 +53,8 @@ type lx struct {
 type bufPiece struct {
 	At ssa.Instruction
 	X  *lx
+	// V: the value written (set for the parts of a returned concatenation)
+	V ssa.Value
 }
 
 type bufSpec struct {
@@ -62,6 +64,12 @@ type bufSpec struct {
 	fr     *oframe
 	pieces map[*ssa.BasicBlock][]bufPiece
 	bad    string
+	// isRet: not a buffer but the string result #retIdx of a loop-free helper, seen as what is "written" by the
+	// parts of the returned concatenation (so that each path is followed on its own); fallback is what the
+	// path-insensitive evaluation gives
+	isRet    bool
+	retIdx   int
+	fallback *lx
 }
 
 type oframe struct {
@@ -106,6 +114,9 @@ func (oe *outEval) fieldValue(base ssa.Value, field int, fr *oframe, depth int) 
 	if depth > 8 || base == nil {
 		return nil, nil, nil, false
 	}
+	if os.Getenv("FIELD_DEBUG") != "" {
+		fmt.Fprintf(os.Stderr, "fieldValue[%d] %T %s #%d in %s\n", depth, base, base, field, fr.fn.Name())
+	}
 	switch x := base.(type) {
 	case *ssa.Alloc:
 		var st *ssa.Store
@@ -125,12 +136,18 @@ func (oe *outEval) fieldValue(base ssa.Value, field int, fr *oframe, depth int) 
 				}
 			case *ssa.Store:
 				if y.Addr == ssa.Value(x) {
+					if selfStore(y) {
+						continue // "return r, …" with a named result r stores r to itself
+					}
 					if whole != nil {
 						return nil, nil, nil, false
 					}
 					whole = y
 				}
 			}
+		}
+		if os.Getenv("FIELD_DEBUG") != "" {
+			fmt.Fprintf(os.Stderr, "   alloc n=%d whole=%v\n", n, whole)
 		}
 		if n == 1 && (whole == nil || isZeroConst(whole.Val)) {
 			return st.Val, st.Block(), fr, true
@@ -151,6 +168,12 @@ func (oe *outEval) fieldValue(base ssa.Value, field int, fr *oframe, depth int) 
 		}
 	case *ssa.MakeInterface:
 		return oe.fieldValue(x.X, field, fr, depth+1)
+	case *ssa.Extract:
+		if call, ok := x.Tuple.(*ssa.Call); ok {
+			return oe.resultFieldValue(call, x.Index, field, fr, depth)
+		}
+	case *ssa.Call:
+		return oe.resultFieldValue(x, 0, field, fr, depth)
 	case *ssa.Global:
 		// a package-level struct: the constant its initialiser stores in the field (and nothing else writes)
 		st := oe.s.singleStoreWhere(func(addr ssa.Value) bool {
@@ -168,6 +191,64 @@ func (oe *outEval) fieldValue(base ssa.Value, field int, fr *oframe, depth int) 
 		}
 	}
 	return nil, nil, nil, false
+}
+
+// resultFieldValue: field #field of the struct that result #idx of a call to a repository helper is: the one value
+// that every return of the helper has stored there (in a frame of the helper entered from fr).
+func (oe *outEval) resultFieldValue(call *ssa.Call, idx, field int, fr *oframe, depth int) (ssa.Value, *ssa.BasicBlock, *oframe, bool) {
+	g := staticCallee(call.Common())
+	if g == nil || g.Blocks == nil || g.Pkg == nil || !strings.HasPrefix(g.Pkg.Pkg.Path(), modulePath) || idx >= g.Signature.Results().Len() || fr.depth >= 5 || hasLoop(g) {
+		return nil, nil, nil, false
+	}
+	key := resultFrameKey{call, fr}
+	gfr := oe.resultFrames[key]
+	if gfr == nil {
+		gfr = oe.newCalleeFrame(g, call.Common().Args, call.Block(), fr)
+		if oe.resultFrames == nil {
+			oe.resultFrames = map[resultFrameKey]*oframe{}
+		}
+		oe.resultFrames[key] = gfr
+	}
+	var val ssa.Value
+	var blk *ssa.BasicBlock
+	var vfr *oframe
+	// a helper that also returns an error: where every use of the struct is behind a test of that error, the
+	// returns with a certainly non-nil error do not count
+	skipErr := false
+	if n := g.Signature.Results().Len(); n >= 2 && idx != n-1 && isErrorType(g.Signature.Results().At(n-1).Type()) {
+		skipErr = true
+		for _, ref := range *call.Referrers() {
+			ex, ok := ref.(*ssa.Extract)
+			if !ok || ex.Index != idx {
+				continue
+			}
+			for _, use := range *ex.Referrers() {
+				if _, dbg := use.(*ssa.DebugRef); dbg {
+					continue
+				}
+				if !errChecked(call, use.Block()) {
+					skipErr = false
+				}
+			}
+		}
+	}
+	for _, ret := range Returns(g) {
+		if n := len(ret.Results); skipErr && certainlyNonNil(ret.Results[n-1], ret.Block()) {
+			continue
+		}
+		v, b, f, ok := oe.fieldValue(ret.Results[idx], field, gfr, depth+1)
+		if !ok || (val != nil && (v != val || f != vfr)) {
+			return nil, nil, nil, false
+		}
+		val, blk, vfr = v, b, f
+	}
+	return val, blk, vfr, val != nil
+}
+
+// selfStore: *a = *a (what a return statement that names a result variable compiles to).
+func selfStore(st *ssa.Store) bool {
+	u, ok := st.Val.(*ssa.UnOp)
+	return ok && u.Op == token.MUL && u.X == st.Addr
 }
 
 func isZeroConst(v ssa.Value) bool {
@@ -290,9 +371,19 @@ func (oe *outEval) safeStructContent(v ssa.Value, b *ssa.BasicBlock, fr *oframe)
 				return &lx{Kind: "named", Name: "any", Mark: paramContentMarkBase + i}, true
 			}
 		}
+	case *ssa.Field:
+		// a safe value kept in a field of another struct
+		if val, blk, vfr, ok := oe.fieldValue(x.X, x.Field, fr, 0); ok {
+			return oe.safeStructContent(val, fr.usePoint(vfr, b, blk), vfr)
+		}
 	case *ssa.UnOp:
 		if eb, ok := fr.elems[x]; ok {
 			return oe.safeStructContent(eb.v, eb.fr.fn.Blocks[0], eb.fr)
+		}
+		if fa, ok := x.X.(*ssa.FieldAddr); ok && x.Op == token.MUL {
+			if val, blk, vfr, ok := oe.fieldValue(fa.X, fa.Field, fr, 0); ok {
+				return oe.safeStructContent(val, fr.usePoint(vfr, b, blk), vfr)
+			}
 		}
 		if al, ok := x.X.(*ssa.Alloc); ok && x.Op == token.MUL {
 			var alts []*lx
@@ -360,6 +451,15 @@ type outEval struct {
 	Tokens bool
 	// termOverride: while a path of a helper is compiled, the languages of the terms on that path
 	termOverride map[int]*relang.DFA
+	// pseudoElems: fields and list elements of the outermost struct parameter are terms (seedPseudoTerms was used)
+	pseudoElems bool
+	// resultFrames: the frame of a helper whose struct result is looked into, by call and calling frame
+	resultFrames map[resultFrameKey]*oframe
+}
+
+type resultFrameKey struct {
+	call *ssa.Call
+	fr   *oframe
 }
 
 func newOutEval(p *Program, s *Summarizer) *outEval {
@@ -572,6 +672,13 @@ func (oe *outEval) seedFieldTerms(fr *oframe, callBlock *ssa.BasicBlock, caller 
 				continue
 			}
 			val, _, vfr, ok := oe.fieldValue(base, field, fr, 0)
+			if os.Getenv("FIELD_DEBUG") != "" {
+				fmt.Fprintf(os.Stderr, "seedFieldTerms %s in %s: ok=%v val=%v\n", v, fr.fn.Name(), ok, val)
+				if ok {
+					t, okT := oe.s.termOf(val, vfr.env)
+					fmt.Fprintf(os.Stderr, "   term %v %v (frame %s)\n", t, okT, vfr.fn.Name())
+				}
+			}
 			if !ok {
 				continue
 			}
@@ -658,6 +765,33 @@ func (oe *outEval) stringerLx(a ssa.Value, b *ssa.BasicBlock, fr *oframe) *lx {
 func (oe *outEval) callLx(call *ssa.Call, idx int, b *ssa.BasicBlock, fr *oframe) *lx {
 	c := call.Common()
 	f := staticCallee(c)
+	if f == nil && !c.IsInvoke() {
+		// a function handed in as an argument: the function the caller passed (through the frames)
+		v, vfr := c.Value, fr
+		for i := 0; i < 6; i++ {
+			prm, isPrm := v.(*ssa.Parameter)
+			if !isPrm || vfr == nil {
+				break
+			}
+			bv, ok := vfr.args[prm]
+			if !ok {
+				break
+			}
+			v, vfr = bv.v, bv.fr
+		}
+		switch y := v.(type) {
+		case *ssa.Function:
+			f = y
+		case *ssa.MakeClosure:
+			if len(y.Bindings) == 0 {
+				f, _ = y.Fn.(*ssa.Function)
+			}
+		}
+		if f != nil && f.Blocks != nil && f.Pkg != nil && strings.HasPrefix(f.Pkg.Pkg.Path(), modulePath) {
+			return oe.inlineLx(f, c.Args, idx, call.Block(), fr)
+		}
+		return lxAny()
+	}
 	if f == nil {
 		return lxAny()
 	}
@@ -715,6 +849,13 @@ func (oe *outEval) callLx(call *ssa.Call, idx int, b *ssa.BasicBlock, fr *oframe
 			return &lx{Kind: "join", Parts: parts}
 		}
 		return oe.note("a path join of a list the evaluator cannot follow at %s", oe.p.Pos(call.Pos()))
+	case "strings.Join":
+		if sep, ok := constString(c.Args[1]); ok {
+			if x, ok := oe.accumulatedJoinLx(c.Args[0], sep, call.Block(), fr); ok {
+				return x
+			}
+		}
+		return lxAny()
 	case "strconv.Quote":
 		return &lx{Kind: "named", Name: "goquote"}
 	case "strconv.Itoa":
@@ -735,6 +876,94 @@ func (oe *outEval) callLx(call *ssa.Call, idx int, b *ssa.BasicBlock, fr *oframe
 		return res
 	}
 	return lxAny()
+}
+
+// accumulatedJoinLx: strings.Join(list, sep) where list starts empty and only grows by append(list, e…) of
+// single elements (in a loop or not): E (sep E)* over the union E of the elements, and also "" unless the use is
+// guarded by len(list) != 0.
+func (oe *outEval) accumulatedJoinLx(list ssa.Value, sep string, b *ssa.BasicBlock, fr *oframe) (*lx, bool) {
+	type elem struct {
+		v ssa.Value
+		b *ssa.BasicBlock
+	}
+	var elems []elem
+	seen := map[ssa.Value]bool{}
+	var collect func(v ssa.Value, depth int) bool
+	collect = func(v ssa.Value, depth int) bool {
+		if seen[v] {
+			return true
+		}
+		seen[v] = true
+		if depth > 12 {
+			return false
+		}
+		switch x := v.(type) {
+		case *ssa.Const:
+			return x.Value == nil
+		case *ssa.MakeSlice:
+			k, ok := constInt(x.Len)
+			return ok && k == 0
+		case *ssa.Phi:
+			for _, e := range x.Edges {
+				if !collect(e, depth+1) {
+					return false
+				}
+			}
+			return true
+		case *ssa.Call:
+			bi, ok := x.Common().Value.(*ssa.Builtin)
+			if !ok || bi.Name() != "append" || len(x.Common().Args) != 2 {
+				return false
+			}
+			more, ok := variadicArgs(x.Common().Args[1])
+			if !ok {
+				return false
+			}
+			for _, m := range more {
+				elems = append(elems, elem{m, x.Block()})
+			}
+			return collect(x.Common().Args[0], depth+1)
+		}
+		return false
+	}
+	if sl, ok := list.Type().Underlying().(*types.Slice); !ok || !isStringish(sl.Elem()) {
+		return nil, false
+	}
+	if !collect(list, 0) || len(elems) == 0 {
+		return nil, false
+	}
+	var alts []*lx
+	for _, e := range elems {
+		alts = append(alts, oe.strLx(e.v, e.b, fr))
+	}
+	E := lxAlt(alts...)
+	res := lxCat(E, &lx{Kind: "star", Parts: []*lx{lxCat(lxLit(sep), E)}})
+	nonEmpty := false
+	for _, gd := range GuardsOf(b) {
+		bo, ok := gd.Cond.(*ssa.BinOp)
+		if !ok {
+			continue
+		}
+		lv, isLen := isLenOf(bo.X)
+		k, isK := constInt(bo.Y)
+		if !isLen || !isK || k != 0 || !seen[lv] {
+			continue
+		}
+		if _, isPhiOrList := lv.(*ssa.Phi); !isPhiOrList && lv != list {
+			continue
+		}
+		if lv != list {
+			continue
+		}
+		switch {
+		case bo.Op == token.EQL && !gd.Pol, bo.Op == token.NEQ && gd.Pol, bo.Op == token.GTR && gd.Pol:
+			nonEmpty = true
+		}
+	}
+	if !nonEmpty {
+		res = lxAlt(lxLit(""), res)
+	}
+	return res, true
 }
 
 // fromURLSanitized: v is URLSanitized(x).String() (possibly through conversions).
@@ -762,6 +991,7 @@ func (oe *outEval) withCalleeFrame(f *ssa.Function, args []ssa.Value, b *ssa.Bas
 			continue
 		}
 		fr2.orig[prm] = fr.rootOf(args[i])
+		//withCalleeFrame
 		fr2.args[prm] = boundVal{args[i], fr}
 		if !isStringish(prm.Type()) {
 			oe.s.bindValue(prm, args[i])
@@ -796,9 +1026,37 @@ func (oe *outEval) withCalleeFrame(f *ssa.Function, args []ssa.Value, b *ssa.Bas
 		oe.seedTokens(fr2)
 	}
 	oe.seedFieldTerms(fr2, b, fr)
+	oe.seedParamElems(fr2)
 	oe.active[f]++
 	defer func() { oe.active[f]-- }()
 	return body(fr2)
+}
+
+// newCalleeFrame: a frame of f entered from block b of fr that outlives the evaluation of one call (used to look
+// into the struct a helper returns). Patterns passed as arguments are not bound in it.
+func (oe *outEval) newCalleeFrame(f *ssa.Function, args []ssa.Value, b *ssa.BasicBlock, fr *oframe) *oframe {
+	fr2 := &oframe{fn: f, env: termEnv{}, bind: map[ssa.Value]*lx{}, depth: fr.depth + 1, orig: map[ssa.Value]ssa.Value{}, args: map[ssa.Value]boundVal{}, parent: fr, callBlock: b}
+	for i, prm := range f.Params {
+		if i >= len(args) {
+			continue
+		}
+		fr2.orig[prm] = fr.rootOf(args[i])
+		fr2.args[prm] = boundVal{args[i], fr}
+		if t, ok := oe.s.termOf(args[i], fr.env); ok {
+			fr2.env[prm] = t
+			if isStringish(prm.Type()) && !t.Lower && t.Strip == nil && !t.Unesc {
+				fr2.bind[prm] = oe.boundTerm(t, oe.s.blockCond(b, fr.env, "argument "+termStr(t)), fr)
+			}
+		} else if isStringish(prm.Type()) || isByteSlice(prm.Type()) {
+			fr2.bind[prm] = oe.strLx(args[i], b, fr)
+		}
+	}
+	if oe.Tokens {
+		oe.seedTokens(fr2)
+	}
+	oe.seedFieldTerms(fr2, b, fr)
+	oe.seedParamElems(fr2)
+	return fr2
 }
 
 func (oe *outEval) inlineLx(f *ssa.Function, args []ssa.Value, idx int, b *ssa.BasicBlock, fr *oframe) *lx {
@@ -828,8 +1086,44 @@ func (oe *outEval) inlineLx(f *ssa.Function, args []ssa.Value, idx int, b *ssa.B
 		if len(alts) == 0 {
 			return &lx{Kind: "none"}
 		}
-		return lxAlt(alts...)
+		res := lxAlt(alts...)
+		// a loop-free helper whose result is put together from values that depend on the path taken: each path on
+		// its own (what was cut off on a path and what was put in its place stay together)
+		if isStringish(f.Signature.Results().At(idx).Type()) && f.Signature.Results().Len() == 1 && returnsPathDependent(f, idx) {
+			bs := &bufSpec{fn: f, fr: fr2, isRet: true, retIdx: idx, fallback: res}
+			if oe.pathModeApplies(bs) {
+				return &lx{Kind: "buf", Buf: bs}
+			}
+		}
+		return res
 	})
+}
+
+// concatLeaves: the operands of a string concatenation, in order.
+func concatLeaves(v ssa.Value, depth int) []ssa.Value {
+	if bo, ok := v.(*ssa.BinOp); ok && bo.Op == token.ADD && depth < 8 {
+		return append(concatLeaves(bo.X, depth+1), concatLeaves(bo.Y, depth+1)...)
+	}
+	return []ssa.Value{v}
+}
+
+// returnsPathDependent: some return of the loop-free f yields a concatenation with a part chosen by the path (a phi).
+func returnsPathDependent(f *ssa.Function, idx int) bool {
+	if !loopFree(f) {
+		return false
+	}
+	for _, ret := range Returns(f) {
+		leaves := concatLeaves(ret.Results[idx], 0)
+		if len(leaves) < 2 {
+			continue
+		}
+		for _, l := range leaves {
+			if _, isPhi := l.(*ssa.Phi); isPhi {
+				return true
+			}
+		}
+	}
+	return false
 }
 
 // ---- buffers ---------------------------------------------------------------------------------
@@ -933,6 +1227,14 @@ func (oe *outEval) piecesOf(bs *bufSpec) {
 	}
 	bs.pieces = map[*ssa.BasicBlock][]bufPiece{}
 	fr := bs.fr
+	if bs.isRet {
+		for _, ret := range Returns(bs.fn) {
+			for _, leaf := range concatLeaves(ret.Results[bs.retIdx], 0) {
+				bs.pieces[ret.Block()] = append(bs.pieces[ret.Block()], bufPiece{At: ret, X: oe.strLx(leaf, ret.Block(), fr), V: leaf})
+			}
+		}
+		return
+	}
 	for _, b := range bs.fn.Blocks {
 		for _, in := range b.Instrs {
 			call, ok := in.(*ssa.Call)
@@ -957,11 +1259,11 @@ func (oe *outEval) piecesOf(bs *bufSpec) {
 			}
 			switch fnName(f) {
 			case "(*bytes.Buffer).WriteString":
-				bs.pieces[b] = append(bs.pieces[b], bufPiece{call, oe.strLx(c.Args[1], b, fr)})
+				bs.pieces[b] = append(bs.pieces[b], bufPiece{At: call, X: oe.strLx(c.Args[1], b, fr)})
 			case "(*bytes.Buffer).WriteByte", "(*bytes.Buffer).WriteRune":
-				bs.pieces[b] = append(bs.pieces[b], bufPiece{call, oe.charLx(c.Args[1], b)})
+				bs.pieces[b] = append(bs.pieces[b], bufPiece{At: call, X: oe.charLx(c.Args[1], b)})
 			case "(*bytes.Buffer).Write":
-				bs.pieces[b] = append(bs.pieces[b], bufPiece{call, oe.strLx(c.Args[1], b, fr)})
+				bs.pieces[b] = append(bs.pieces[b], bufPiece{At: call, X: oe.strLx(c.Args[1], b, fr)})
 			case "(*bytes.Buffer).String", "(*bytes.Buffer).Len", "(*bytes.Buffer).Grow", "(*bytes.Buffer).Cap", "(*bytes.Buffer).Bytes":
 			case "encoding/json.NewEncoder":
 				// an encoder over the buffer: each Encode appends the JSON text and a newline; HTML escaping is
@@ -1003,22 +1305,22 @@ func (oe *outEval) piecesOf(bs *bufSpec) {
 						}
 						pc = lxCat(&lx{Kind: "named", Name: "json", Mark: mark}, lxLit("\n"))
 					}
-					bs.pieces[ec.Block()] = append(bs.pieces[ec.Block()], bufPiece{ec, pc})
+					bs.pieces[ec.Block()] = append(bs.pieces[ec.Block()], bufPiece{At: ec, X: pc})
 				}
 			case "fmt.Fprintf":
 				if format, ok := constString(c.Args[1]); ok {
 					if args, ok := variadicArgs(c.Args[2]); ok {
-						bs.pieces[b] = append(bs.pieces[b], bufPiece{call, oe.sprintfLx(format, args, b, fr)})
+						bs.pieces[b] = append(bs.pieces[b], bufPiece{At: call, X: oe.sprintfLx(format, args, b, fr)})
 						continue
 					}
 				}
 				bs.bad = "fmt.Fprintf with a non-constant format at " + oe.p.Pos(call.Pos())
 			case "fmt.Fprint", "io.WriteString":
-				bs.pieces[b] = append(bs.pieces[b], bufPiece{call, lxAny()})
+				bs.pieces[b] = append(bs.pieces[b], bufPiece{At: call, X: lxAny()})
 			default:
 				if f.Blocks != nil && f.Pkg != nil && strings.HasPrefix(f.Pkg.Pkg.Path(), modulePath) && fr.depth < 5 && oe.active[f] == 0 {
 					// a helper of the repository that writes into the buffer
-					fr2 := &oframe{fn: f, env: termEnv{}, bind: map[ssa.Value]*lx{}, depth: fr.depth + 1}
+					fr2 := &oframe{fn: f, env: termEnv{}, bind: map[ssa.Value]*lx{}, depth: fr.depth + 1, orig: map[ssa.Value]ssa.Value{}, args: map[ssa.Value]boundVal{}, parent: fr, callBlock: b}
 					var hb ssa.Value
 					for i, prm := range f.Params {
 						if i >= len(c.Args) {
@@ -1028,6 +1330,8 @@ func (oe *outEval) piecesOf(bs *bufSpec) {
 							hb = prm
 							continue
 						}
+						fr2.orig[prm] = fr.rootOf(c.Args[i])
+						fr2.args[prm] = boundVal{c.Args[i], fr}
 						if !isStringish(prm.Type()) {
 							oe.s.bindValue(prm, c.Args[i])
 						}
@@ -1044,11 +1348,13 @@ func (oe *outEval) piecesOf(bs *bufSpec) {
 						if oe.Tokens {
 							oe.seedTokens(fr2)
 						}
+						oe.seedFieldTerms(fr2, b, fr)
+						oe.seedParamElems(fr2)
 						oe.active[f]++
 						sub := &bufSpec{fn: f, buf: hb, fr: fr2}
 						oe.piecesOf(sub)
 						oe.active[f]--
-						bs.pieces[b] = append(bs.pieces[b], bufPiece{call, &lx{Kind: "buf", Buf: sub}})
+						bs.pieces[b] = append(bs.pieces[b], bufPiece{At: call, X: &lx{Kind: "buf", Buf: sub}})
 						continue
 					}
 				}
@@ -1101,6 +1407,11 @@ func (oe *outEval) register(x *lx, L *Lang, seen map[*lx]bool) error {
 				if err := oe.register(pc.X, L, seen); err != nil {
 					return err
 				}
+			}
+		}
+		if x.Buf.fallback != nil {
+			if err := oe.register(x.Buf.fallback, L, seen); err != nil {
+				return err
 			}
 		}
 	}
@@ -1235,6 +1546,20 @@ func (oe *outEval) compile(x *lx, L *Lang, memo map[*lx]*relang.DFA) (*relang.DF
 			d = L.All()
 			break
 		}
+		if bs.isRet {
+			d1, bad, err := oe.compileBufPathsOrBad(bs, L)
+			if err != nil {
+				return nil, err
+			}
+			if bad {
+				d1, err = oe.compile(bs.fallback, L, memo)
+				if err != nil {
+					return nil, err
+				}
+			}
+			d = d1
+			break
+		}
 		if oe.pathModeApplies(bs) {
 			d1, err := oe.compileBufPaths(bs, L, true)
 			if err != nil {
@@ -1296,6 +1621,9 @@ func (oe *outEval) compile(x *lx, L *Lang, memo map[*lx]*relang.DFA) (*relang.DF
 					if err != nil {
 						return 0, err
 					}
+					if os.Getenv("GRAPH_DEBUG") != "" {
+						fmt.Printf("  graph %s block %d piece %s: js=%v eps=%v\n", bs.fn.Name(), b.Index, trunc(pcs[k].X.String(), 40), pd.Accepts("javascript:x"), pd.Accepts(""))
+					}
 					nx := g.NewState()
 					g.Embed(cur, nx, pd)
 					cur = nx
@@ -1321,8 +1649,12 @@ func (oe *outEval) compile(x *lx, L *Lang, memo map[*lx]*relang.DFA) (*relang.DF
 				outEntry[b] = cur
 			}
 		}
+		startBlock, cutInto := bufStartBlock(bs)
 		for _, b := range bs.fn.Blocks {
 			for _, su := range b.Succs {
+				if su == cutInto {
+					continue // the buffer is created anew there
+				}
 				target := in[su]
 				if s0, ok := inEntry[su]; ok && !su.Dominates(b) {
 					target = s0 // entering the loop from outside
@@ -1333,7 +1665,10 @@ func (oe *outEval) compile(x *lx, L *Lang, memo map[*lx]*relang.DFA) (*relang.DF
 				g.Eps(oe0, in[b.Succs[0]]) // first test holds: into the body only
 			}
 		}
-		d = g.DFA(in[bs.fn.Blocks[0]], accept)
+		d = g.DFA(in[startBlock], accept)
+		if os.Getenv("GRAPH_DEBUG") != "" {
+			fmt.Printf("  graph %s start block %d cut %v accept %v: js=%v\n", bs.fn.Name(), startBlock.Index, cutInto, accept, d.Accepts("javascript:x"))
+		}
 	default:
 		return nil, fmt.Errorf("language expression of kind %s", x.Kind)
 	}
@@ -1396,6 +1731,7 @@ func fieldPathOf(fn *ssa.Function, v ssa.Value) (string, bool) {
 // seedPseudoTerms makes string-valued fields of struct parameters, and the elements of
 // range loops over []string fields, terms of the frame (so that guards on them are summarised).
 func (oe *outEval) seedPseudoTerms(fr *oframe) {
+	oe.pseudoElems = true
 	id := func(key string) int {
 		if k, ok := oe.pseudo[key]; ok {
 			return k
@@ -1438,6 +1774,72 @@ func (oe *outEval) seedPseudoTerms(fr *oframe) {
 				if p, ok := fieldPathOf(fr.fn, x); ok {
 					fr.env[v] = Term{Param: id("field:" + p)}
 				}
+			}
+		}
+	}
+}
+
+// seedParamElems: in the frame of a helper, the elements of a range loop over a []string parameter that the
+// callers (up to the outermost frame) bound to a field of the outermost function's struct parameter are that
+// field's element term.
+func (oe *outEval) seedParamElems(fr *oframe) {
+	if !oe.pseudoElems {
+		return
+	}
+	resolve := func(v ssa.Value) (string, bool) {
+		cur, cfr := v, fr
+		for i := 0; i < 6; i++ {
+			prm, ok := cur.(*ssa.Parameter)
+			if !ok || cfr == nil {
+				break
+			}
+			bv, ok := cfr.args[prm]
+			if !ok {
+				return "", false
+			}
+			cur, cfr = bv.v, bv.fr
+		}
+		if cfr == nil || cfr.parent != nil {
+			return "", false // not a value of the outermost frame
+		}
+		return fieldPathOf(cfr.fn, cur)
+	}
+	id := func(key string) int {
+		if k, ok := oe.pseudo[key]; ok {
+			return k
+		}
+		k := 100 + len(oe.pseudo)
+		oe.pseudo[key] = k
+		oe.PseudoKey[k] = key
+		return k
+	}
+	for _, b := range fr.fn.Blocks {
+		for _, in := range b.Instrs {
+			v, ok := in.(ssa.Value)
+			if !ok || !isStringish(v.Type()) {
+				continue
+			}
+			if _, bound := fr.env[v]; bound {
+				continue
+			}
+			var base ssa.Value
+			switch x := v.(type) {
+			case *ssa.UnOp:
+				if ia, ok := x.X.(*ssa.IndexAddr); ok {
+					base = ia.X
+				}
+			case *ssa.Extract:
+				if nx, ok := x.Tuple.(*ssa.Next); ok && x.Index == 2 {
+					if rg, ok := nx.Iter.(*ssa.Range); ok {
+						base = rg.X
+					}
+				}
+			}
+			if _, isPrm := base.(*ssa.Parameter); !isPrm {
+				continue
+			}
+			if p, ok := resolve(base); ok {
+				fr.env[v] = Term{Param: id("elem:" + p)}
 			}
 		}
 	}
@@ -1862,24 +2264,79 @@ func (oe *outEval) compileBufAware(bs *bufSpec, L *Lang, memo map[*lx]*relang.DF
 		}
 		outE[b], outN[b] = curE, curN
 	}
+	startBlock, cutInto := bufStartBlock(bs)
 	for _, b := range bs.fn.Blocks {
 		if iff, ok := b.Instrs[len(b.Instrs)-1].(*ssa.If); ok {
-			if e, ok := bufLenTest(iff, bs.buf); ok {
+			if e, ok := bufLenTest(iff, bs.buf); ok && b.Succs[0] != cutInto && b.Succs[1] != cutInto {
 				g.Eps(outE[b], inE[b.Succs[e]])
 				g.Eps(outN[b], inN[b.Succs[1-e]])
 				continue
 			}
 		}
 		for _, su := range b.Succs {
+			if su == cutInto {
+				continue
+			}
 			g.Eps(outE[b], inE[su])
 			g.Eps(outN[b], inN[su])
 		}
 	}
-	start := inN[bs.fn.Blocks[0]]
+	start := inN[startBlock]
 	if entryEmpty {
-		start = inE[bs.fn.Blocks[0]]
+		start = inE[startBlock]
 	}
 	return g.DFA(start, accept).Minimize(), nil
+}
+
+// forcePieces computes the pieces of every buffer of x now (they are otherwise computed when the language is
+// compiled), so that the terms they introduce are known before a specification over them is written.
+func (oe *outEval) forcePieces(x *lx, seen map[*lx]bool) {
+	if x == nil || seen[x] {
+		return
+	}
+	seen[x] = true
+	for _, p := range x.Parts {
+		oe.forcePieces(p, seen)
+	}
+	if x.Buf != nil {
+		oe.piecesOf(x.Buf)
+		for _, ps := range x.Buf.pieces {
+			for _, pc := range ps {
+				oe.forcePieces(pc.X, seen)
+			}
+		}
+		oe.forcePieces(x.Buf.fallback, seen)
+	}
+}
+
+// bufStartBlock: where the content of the buffer starts to be followed: the entry of the function, or — for a buffer
+// variable declared inside a loop, which is created anew (empty) each time its declaration is executed — the block
+// of the declaration, whose incoming edges are then cut (second result).
+func bufStartBlock(bs *bufSpec) (*ssa.BasicBlock, *ssa.BasicBlock) {
+	al, ok := bs.buf.(*ssa.Alloc)
+	if !ok || al.Parent() != bs.fn || al.Block() == nil || al.Block() == bs.fn.Blocks[0] {
+		return bs.fn.Blocks[0], nil
+	}
+	inLoop := false
+	seen := map[*ssa.BasicBlock]bool{}
+	work := append([]*ssa.BasicBlock{}, al.Block().Succs...)
+	for len(work) > 0 {
+		x := work[len(work)-1]
+		work = work[:len(work)-1]
+		if x == al.Block() {
+			inLoop = true
+			break
+		}
+		if seen[x] {
+			continue
+		}
+		seen[x] = true
+		work = append(work, x.Succs...)
+	}
+	if !inLoop {
+		return bs.fn.Blocks[0], nil
+	}
+	return al.Block(), al.Block()
 }
 
 // dumpLx prints an expression with the pieces of its buffers (debugging aid).
